@@ -285,3 +285,106 @@ func pollLiveScenario(script string, bufSize int, extra string) *vsched.Scenario
 	}
 	return sc
 }
+
+// ---- C11: event-array growth (poll.many): at least as many descriptors ready at once as the
+// poller's event array holds (128), so that one epoll_wait fills it, the array and the barriers are
+// re-allocated (Reset(size<<1)) and the rest is fetched by the next round; then a second wave and
+// a close of every peer (one large hang-up batch). ----
+
+func init() {
+	register("poll.many", func(tier string) []Variant {
+		var vs []Variant
+		for _, n := range []int{128, 130} {
+			for _, second := range []string{"close", "write+close"} {
+				n, second := n, second
+				vs = append(vs, Variant{
+					Name: fmt.Sprintf("descriptors=%d,second=%s", n, second),
+					Make: func() *vsched.Scenario { return pollManyScenario(n, second) },
+				})
+			}
+		}
+		return vs
+	})
+}
+
+func pollManyScenario(n int, second string) *vsched.Scenario {
+	var stubs []*stubOp
+	var sentTo [][]byte
+	sc := &vsched.Scenario{Name: "poll.many", Horizon: 60000}
+	sc.Body = func() {
+		stubs, sentTo = nil, nil
+		netpoll.VerifReset(1)
+		netpoll.Initialize()
+		_, _, polls := netpoll.VerifManagerState()
+		poll := polls[0]
+		sentTo = make([][]byte, n)
+		for i := 0; i < n; i++ {
+			a, b := vsyscall.HSocketpair(4096)
+			s := newStub(i, poll, a, b, 8, nil)
+			stubs = append(stubs, s)
+			if err := s.op.Control(netpoll.PollReadable); err != nil {
+				panic(err)
+			}
+		}
+		vsched.Go("peers", func() {
+			// first wave: every descriptor becomes readable before the poller looks
+			for i := 0; i < n; i++ {
+				p := stream(7*i, 1)
+				vsyscall.HWrite(stubs[i].pfd, p)
+				sentTo[i] = append(sentTo[i], p...)
+			}
+			vsched.LogEvent("wave1-written")
+			vsched.WaitCond("wave1-delivered", func() bool {
+				for _, s := range stubs {
+					if len(s.in) < 1 {
+						return false
+					}
+				}
+				return true
+			})
+			for i := 0; i < n; i++ {
+				if second == "write+close" {
+					p := stream(7*i+1, 2)
+					vsyscall.HWrite(stubs[i].pfd, p)
+					sentTo[i] = append(sentTo[i], p...)
+				}
+				vsyscall.HClose(stubs[i].pfd)
+			}
+			vsched.LogEvent("wave2-done")
+		})
+	}
+	sc.Outcome = func(ex *vsched.Exec) string {
+		hups, bytes := 0, 0
+		for _, s := range stubs {
+			hups += s.hups
+			bytes += len(s.in)
+		}
+		return fmt.Sprintf("hups=%d bytes=%d", hups, bytes)
+	}
+	sc.Check = func(ex *vsched.Exec) []vsched.Violation {
+		vs := baseChecks("C11", ex, false)
+		add := func(sig, msg string) { vs = append(vs, vsched.Violation{Sig: "C11 " + sig, Msg: msg}) }
+		if ex.End != vsched.EndQuiescent {
+			return vs
+		}
+		for i, s := range stubs {
+			tag := fmt.Sprintf("op%d (of %d)", i, n)
+			if string(s.in) != string(sentTo[i]) {
+				add("many input-mismatch", fmt.Sprintf("%s: delivered %d bytes, the peer wrote %d (or content differs)", tag, len(s.in), len(sentTo[i])))
+			}
+			if s.hups != 1 {
+				add(fmt.Sprintf("many hups=%d", s.hups), fmt.Sprintf("%s: OnHup reported %d times after the peer closed", tag, s.hups))
+			}
+			if len(s.afterHup) > 0 {
+				add("many callback-after-hup", fmt.Sprintf("%s: callbacks after the hang-up was reported: %v", tag, s.afterHup))
+			}
+		}
+		_, _, polls := netpoll.VerifManagerState()
+		size, caps := netpoll.VerifPollSize(polls[0])
+		if size < 256 {
+			add("many no-growth", fmt.Sprintf("the event array still holds %d entries (caps %d) although %d descriptors were ready at once", size, caps, n))
+		}
+		return vs
+	}
+	return sc
+}
